@@ -14,8 +14,8 @@ import time
 import traceback
 
 VERIF = os.path.dirname(os.path.dirname(os.path.abspath(__file__)))
-if "/repo" not in sys.path:
-    sys.path.insert(0, "/repo")
+if __import__("harness").REPO not in sys.path:
+    sys.path.insert(0, __import__("harness").REPO)
 
 from . import tlc  # noqa: E402
 
